@@ -13,7 +13,7 @@ CHECKS = {
          "DESIGN.md §4 C01"),
  "C02": ("E-ENUM", "model_checking",
          "bounded-exhaustive enumeration of hash pairs through up to 19 comparison entry points against the ssdeep score formula (DP edit distance + naive 7-gram scan)",
-         "All 31x31 block-size pairs x 24 content templates, and every single edit (strided double edits) of base strings of length {7,8,31,32,33,63,64} under all three block-size relations and logs {0..5,29,30}, each through the string function (raw / normalized / mixed spellings), hash-to-hash compare, and the reusable target initialised from short / long / dual operands (dirty and fresh), plus compare_near_eq / compare_unequal* when their preconditions hold.",
+         "All 31x31 block-size pairs x 24 content templates, and every single edit (strided double edits) of base strings of length {7,8,31,32,33,63,64} under all three block-size relations and logs {0..5,29,30}, each through the string function (raw / normalized / mixed spellings), hash-to-hash compare, and the reusable target initialised from short / long / dual operands (dirty and fresh), plus compare_near_eq / compare_unequal* when their preconditions hold; a target holding a long-only hash against short and short-dual operands (and the reverse) through all of these.",
          "Trusted: refmodel::score (textbook DP, naive scan, formula, cap; bound to the README scores 46 and 88).  Pairs outside the families are not covered.",
          "DESIGN.md §4 C02"),
  "C03": ("E-STATE", "model_checking",
@@ -63,12 +63,12 @@ CHECKS = {
          "DESIGN.md §4 C11"),
  "C12": ("E-STATE", "model_checking",
          "explicit-state search (stateright BFS) over (real Generator, reference, declared size) under declare / feed / in-place zero skip / reset",
-         "All histories mixing 7 declared sizes (u64 and usize forms), chunked feeding of 6 scripts (incl. 96 GiB+1 last-piece-hash and exactly-192-GiB scripts), finalizations in every state and resets (1; thorough 2) followed by any script; declared-size model and fresh-after-reset differential checked in every state.",
+         "All histories mixing 7 declared sizes (u64 and usize forms), chunked feeding of 6 scripts (incl. 96 GiB+1 last-piece-hash and exactly-192-GiB scripts), finalizations in every state and resets (1; thorough 2) followed by any script; declared-size model and fresh-after-reset differential checked in every state.  Plus a declaration sweep: 23 612 enumerated sizes (powers of two and small odd multiples +- e, multiples of 2^38, whole GiB counts, the borders; 18 876 above the limit) x u64 / usize form x three generator states, each with its exact result, no trace of a refused call, and the repeat / mismatch / finalize behaviour of an accepted one.",
          "Trusted: refmodel::ctph, hook H1 (in-place zero skip; validated).",
          "DESIGN.md §4 C12"),
  "C13": ("E-LOCKSTEP", "model_checking",
          "bounded-exhaustive enumeration of all 31 size borders x deltas x trigger suffixes x forms x hint x fresh / reused generator from hook(N) starts",
-         "Every border 192*2^n + {-2..2} reached exactly, with every trigger level k and piece counts around 32 / 64, piece-poor tails, pieces-zero gap-pieces histories, on fresh and reused generators, with and without the correct hint; exact limit accepted, above rejected; warning for every size 0..8200.",
+         "Every border 192*2^n + {-2..2} reached exactly, with every trigger level k and piece counts around 32 / 64, piece-poor tails, pieces-zero gap-pieces histories, on fresh and reused generators, with and without the correct hint, and with the hint declared late (after the first group of chunks / after the last byte); exact limit accepted, above rejected; warning for every size 0..8200.",
          "Trusted: refmodel::ctph; hook H1 validated against really feeding zeros (exhaustively to 4096 / 65536, around borders to 1.5 MiB / 3 GiB, inductively to 192 GiB).",
          "DESIGN.md §4 C13"),
  "C14": ("E-CONFIG", "model_checking",
